@@ -307,3 +307,8 @@ func VerifSetSensible(hf *HeaderField, v bool) { hf.sensible = v }
 // VerifRetryable exposes the decision RoundTrip takes on an error: whether the
 // request is sent again on another connection (or reported retryable).
 func VerifRetryable(err error) bool { return retryable(err) }
+
+// VerifTakeBack exposes the step RoundTrip takes after a request has been
+// resolved and before it hands Request and Response back to its caller: wait
+// until neither loop is working on the Ctx.
+func VerifTakeBack(ctx *Ctx) { ctx.takeBack() }
